@@ -79,7 +79,7 @@ Qed.
 Lemma holds_env_sound c : holds_env c = true ->
   ev_obs c = Ok (envelope_spec (ev_s c) (ev_g c) (ev_a1 c) (ev_xs c)).
 Proof.
-  unfold holds_env. rewrite andb_true_iff. intros [H1 H2].
+  unfold holds_env. rewrite !andb_true_iff. intros [[H1 H2] _].
   apply qlist_eqb_spec in H2.
   apply (res_eqb_spec _ (list_eqb_spec _ eout_eqb_spec)) in H1.
   rewrite H1, H2. destruct (ev_s c); reflexivity.
